@@ -74,7 +74,10 @@ TOther == (Is("SWHeader") \/ Is("SWWrite") \/ Is("SWClose") \/ Is("SerStart") \/
 \* no handler stayed blocked
 TStress == Is("UploadStress") /\ Stutter /\ E.ok /\ E.runs > 0 /\ E.acked > 0 /\ E.corrupt = 0 /\ E.blocked = 0
                /\ Step
-TNext == TStress \/ TReset \/ TAttempt \/ TAttemptErr \/ TAttemptStatus \/ TBrsRead \/ TBrsSeek \/ TUpStart \/ TUpFail
+\* C05 under load: 12 streams x 1500 lock-step chunks, none held back
+TStreamStress == Is("StreamStress") /\ Stutter /\ E.ok /\ E.chunks > 0 /\ E.stalls = 0
+               /\ Step
+TNext == TStreamStress \/ TStress \/ TReset \/ TAttempt \/ TAttemptErr \/ TAttemptStatus \/ TBrsRead \/ TBrsSeek \/ TUpStart \/ TUpFail
          \/ TUpAck \/ TProduce \/ TObserve \/ TStreamDone \/ TCloseDone \/ TOther
 TSpec == TInit /\ [][TNext]_<<ovars, l>>
 
